@@ -214,6 +214,7 @@ func (s *Sim) applyDiffs(au consensus.ApplyUpdate) {
 		e := d.SiacoinElement.Copy()
 		switch {
 		case d.Created && d.Spent:
+			st.GoneSC[e.ID] = e // enters the accumulator as a spent leaf
 		case d.Spent:
 			delete(st.SC, e.ID)
 			st.GoneSC[e.ID] = e
@@ -225,6 +226,7 @@ func (s *Sim) applyDiffs(au consensus.ApplyUpdate) {
 		e := d.SiafundElement.Copy()
 		switch {
 		case d.Created && d.Spent:
+			st.GoneSF[e.ID] = e
 		case d.Spent:
 			delete(st.SF, e.ID)
 			st.GoneSF[e.ID] = e
@@ -239,6 +241,7 @@ func (s *Sim) applyDiffs(au consensus.ApplyUpdate) {
 		}
 		switch {
 		case d.Created && d.Resolved:
+			st.GoneFC[e.ID] = e
 		case d.Resolved:
 			delete(st.FC, e.ID)
 			st.GoneFC[e.ID] = e
@@ -269,6 +272,7 @@ func (s *Sim) revertDiffs(ru consensus.RevertUpdate, height uint64) {
 		switch {
 		case d.Created:
 			delete(st.SC, d.SiacoinElement.ID)
+			delete(st.GoneSC, d.SiacoinElement.ID)
 		case d.Spent:
 			delete(st.GoneSC, d.SiacoinElement.ID)
 			st.SC[d.SiacoinElement.ID] = d.SiacoinElement.Copy()
@@ -278,6 +282,7 @@ func (s *Sim) revertDiffs(ru consensus.RevertUpdate, height uint64) {
 		switch {
 		case d.Created:
 			delete(st.SF, d.SiafundElement.ID)
+			delete(st.GoneSF, d.SiafundElement.ID)
 		case d.Spent:
 			delete(st.GoneSF, d.SiafundElement.ID)
 			st.SF[d.SiafundElement.ID] = d.SiafundElement.Copy()
@@ -287,6 +292,7 @@ func (s *Sim) revertDiffs(ru consensus.RevertUpdate, height uint64) {
 		switch {
 		case d.Created:
 			delete(st.FC, d.FileContractElement.ID)
+			delete(st.GoneFC, d.FileContractElement.ID)
 		default:
 			delete(st.GoneFC, d.FileContractElement.ID)
 			st.FC[d.FileContractElement.ID] = d.FileContractElement.Copy()
@@ -425,7 +431,9 @@ func (s *Sim) signC2(fc *types.V2FileContract, rk, hk string, auth string) {
 	}
 }
 
-// proof builds a storage proof of the given quality for a file of the given size and challenge index.
+// proof builds a storage proof of the given quality for a file of the given size and challenge index:
+// "ok" honest; "other:<j>" the honest proof of leaf j; "wrongleaf" the honest proof of the next leaf;
+// "wrongdata"/"data" one data byte of the leaf altered; "short" last proof hash dropped; "long" one hash appended.
 func (s *Sim) proof(size uint64, idx uint64, pf string) (leaf [64]byte, proof []types.Hash256) {
 	segs := Leaves(FileData(size))
 	var hs []types.Hash256
@@ -435,14 +443,19 @@ func (s *Sim) proof(size uint64, idx uint64, pf string) (leaf [64]byte, proof []
 	if len(segs) == 0 {
 		return
 	}
+	pair := func(l, r types.Hash256) types.Hash256 { return blake2b.SumPair(l, r) }
 	i := int(idx)
 	if pf == "wrongleaf" && len(segs) > 1 {
 		i = (i + 1) % len(segs)
 	}
+	if strings.HasPrefix(pf, "other:") {
+		j, _ := strconv.Atoi(strings.TrimPrefix(pf, "other:"))
+		i = j % len(segs)
+	}
 	copy(leaf[:], segs[i])
-	proof = PlainProof(hs, i, func(l, r types.Hash256) types.Hash256 { return blake2b.SumPair(l, r) })
+	proof = PlainProof(hs, i, pair)
 	switch {
-	case pf == "wrongdata" || (pf == "wrongleaf" && len(segs) == 1):
+	case pf == "wrongdata" || pf == "data" || (pf == "wrongleaf" && len(segs) == 1):
 		leaf[0] ^= 0x80
 	case pf == "short":
 		if len(proof) > 0 {
@@ -450,9 +463,14 @@ func (s *Sim) proof(size uint64, idx uint64, pf string) (leaf [64]byte, proof []
 		} else {
 			leaf[1] ^= 1
 		}
+	case pf == "long":
+		proof = append(proof, PlainRoot(hs, pair))
 	}
 	return
 }
+
+// ProofFor exposes proof construction to checks that drive the chain directly.
+func (s *Sim) ProofFor(size, idx uint64, pf string) ([64]byte, []types.Hash256) { return s.proof(size, idx, pf) }
 
 // lookup helpers: the element as a block builder holding an up-to-date store sees it
 func (b *BlockCtx) sce(id types.SiacoinOutputID) (types.SiacoinElement, bool) {
@@ -1175,6 +1193,18 @@ func (s *Sim) VerifyStore() []string {
 		e := e.Copy()
 		if !acc.VerifContainsLeaf(consensus.VerifSiacoinLeaf(&e, true)) {
 			bad = append(bad, fmt.Sprintf("spent siacoin element %v (as spent)", id))
+		}
+	}
+	for id, e := range s.Store.GoneSF {
+		e := e.Copy()
+		if !acc.VerifContainsLeaf(consensus.VerifSiafundLeaf(&e, true)) {
+			bad = append(bad, fmt.Sprintf("spent siafund element %v (as spent)", id))
+		}
+	}
+	for id, e := range s.Store.GoneFC {
+		e := e.Copy()
+		if !acc.VerifContainsLeaf(consensus.VerifFileContractLeaf(&e, nil, true)) {
+			bad = append(bad, fmt.Sprintf("resolved v1 contract %v (as resolved)", id))
 		}
 	}
 	for id, e := range s.Store.GoneV2FC {
